@@ -262,11 +262,39 @@ def _local_name(b):
     return b.local if b.local is not None else b.real.split('.')[0]
 
 
-def gen_script(rnd, lay, with_own):
+def twin_imports(rnd, lay, aliases):
+    """import statements binding objects with the SAME unqualified name from different modules
+    (`from a import f0 as x` / `from b import f0 as y`, same-named classes likewise)"""
+    out = []
+    by_name = {}
+    for m in sorted(lay.mods):
+        for f in lay.mods[m]['funcs']:
+            by_name.setdefault(('function', f), []).append(m)
+        for c in lay.mods[m]['classes']:
+            by_name.setdefault(('class', c), []).append(m)
+    groups = [(k, ms) for k, ms in sorted(by_name.items()) if len(ms) >= 2]
+    rnd.shuffle(groups)
+    for (kind, nm), ms in groups[:rnd.randint(1, 2)]:
+        for m in rnd.sample(ms, min(len(ms), rnd.randint(2, 3))):
+            al = aliases.pop()
+            out.append(('from %s import %s as %s' % (m, nm, al), [Binding('%s.%s' % (m, nm), al, kind, al)]))
+    return out
+
+
+def gen_script(rnd, lay, with_own, twins=False):
     aliases = ['al%d' % i for i in range(60, -1, -1)]
     lines = ['_acc = []']
     bindings = []     # all Binding objects, in source order
     bound = {}        # local name -> what it is bound to (a local name is never rebound to something else)
+    forced = []
+    if twins:
+        for src, bs in twin_imports(rnd, lay, aliases):
+            lines.append(src)
+            bindings += bs
+            forced += bs
+            for b in bs:
+                bound[_local_name(b)] = b.real
+                lines.append(usage_line(lay, b))
     for _ in range(rnd.randint(1, 5)):
         for _attempt in range(20):
             src, bs = gen_import_stmt(rnd, lay, aliases)
@@ -295,7 +323,7 @@ def gen_script(rnd, lay, with_own):
     if with_own:
         text += OWN_DEFS + OWN_CALLS
     text += 'print(len(_acc))\n'
-    return text, bindings
+    return text, bindings, forced
 
 
 def spell_selection(rnd, lay, dotted, base_abs, prefix):
@@ -320,7 +348,20 @@ def spell_selection(rnd, lay, dotted, base_abs, prefix):
     return os.path.join(base_abs, rel_sel)
 
 
-def harness_selection(lay, specs, script_rel, base_abs):
+def resolve_rel(p, symlinks):
+    """the physical path (relative to the layout root) of a path spelled through the layout's symlinks"""
+    p = os.path.normpath(p)
+    for _ in range(4):
+        for link, target in (symlinks or {}).items():
+            link = os.path.normpath(link)
+            if p == link:
+                p = os.path.normpath(target)
+            elif p.startswith(link + os.sep):
+                p = os.path.normpath(os.path.join(target, p[len(link) + 1:]))
+    return p
+
+
+def harness_selection(lay, specs, script_rel, base_abs, symlinks=None):
     """The selection the property demands, computed from the layout alone: dotted names of
     the selected modules plus all their submodules and sub-packages; a path to a file
     (also an __init__.py) selects that file only; other dotted names verbatim; the script
@@ -343,7 +384,7 @@ def harness_selection(lay, specs, script_rel, base_abs):
         p = spec
         if os.path.isabs(p):
             p = os.path.relpath(p, base_abs)
-        p = os.path.normpath(p)
+        p = resolve_rel(p, symlinks)
         if p == os.path.normpath(script_rel):
             full = True
             continue
@@ -371,11 +412,25 @@ def harness_selection(lay, specs, script_rel, base_abs):
     return S, full, sorted(set(by_descent))
 
 
-def gen_selection(rnd, lay, bindings, script_rel, base_abs, prefix):
+def via_links(rnd, rel, symlinks):
+    """one of the spellings of a physical relative path through the layout's directory symlinks"""
+    outs = [rel]
+    for link, target in (symlinks or {}).items():
+        t = os.path.normpath(target)
+        if rel.startswith(t + os.sep):
+            outs.append(os.path.join(link, rel[len(t) + 1:]))
+    return rnd.choice(outs)
+
+
+def gen_selection(rnd, lay, bindings, script_rel, base_abs, prefix, forced=(), symlinks=None, script_spellings=None):
     """returns (specs: list of str as they reach autoprofile.run, cli: list of argv items)"""
     specs = []
     mods = sorted(lay.mods)
-    k = rnd.randint(1, 3)
+    for b in forced:
+        # every same-named member is selected: by its own dotted name or through its module
+        modname = b.real.rsplit('.', 1)[0]
+        specs.append(b.real if rnd.random() < 0.5 else spell_selection(rnd, lay, modname, base_abs, prefix))
+    k = rnd.randint(0 if forced else 1, 3)
     for _ in range(k):
         r = rnd.random()
         if r < 0.45 and bindings:
@@ -403,7 +458,14 @@ def gen_selection(rnd, lay, bindings, script_rel, base_abs, prefix):
                 cand = m + 'q'      # only well-formed dotted names (`pkg.` is name<->path resolution, property C18)
             specs.append(cand)
         else:
-            specs.append(rnd.choice([script_rel, './' + script_rel, os.path.join(base_abs, script_rel)]))
+            specs.append(rnd.choice(script_spellings or [script_rel, './' + script_rel, os.path.join(base_abs, script_rel)]))
+    if symlinks:
+        # module selections given as paths may go through a symlinked directory as well
+        specs = [via_links(rnd, x, symlinks) if (not os.path.isabs(x) and ('/' in x) and not x.startswith('./')
+                                                  and os.path.normpath(x) != os.path.normpath(script_rel)) else x
+                 for x in specs]
+    if not specs:
+        specs.append(spell_selection(rnd, lay, rnd.choice(mods), base_abs, prefix))
     # command line spelling: repeated -p, comma-joined, or --prof-mod=
     cli = []
     style = rnd.choice(['repeat', 'comma', 'mixed', 'long'])
@@ -421,15 +483,31 @@ def gen_selection(rnd, lay, bindings, script_rel, base_abs, prefix):
     return specs, cli
 
 
-def gen_layout_case(rnd, e2e, wrapped=True, imports_prob=0.15):
-    prefix = rnd.choice(['', '', '', 'app/'])
+def gen_layout_case(rnd, e2e, wrapped=True, imports_prob=0.15, variant=None):
+    """variant: None | 'twins' (same-named members from different modules, all selected)
+                     | 'symlink' (the project is also reachable through a directory symlink and the script
+                                  through a file symlink; the run path and the -p spelling differ)"""
+    symlinks = {}
+    if variant == 'symlink':
+        prefix = 'proj/'
+    else:
+        prefix = rnd.choice(['', '', '', 'app/'])
     lay = gen_layout(rnd, prefix, wrapped)
-    script_rel = prefix + rnd.choice(['script.py', 'main.py', 'run_it.py'])
-    with_own = rnd.random() < 0.6
-    text, bindings = gen_script(rnd, lay, with_own)
+    script_real = prefix + rnd.choice(['script.py', 'main.py', 'run_it.py'])
+    with_own = rnd.random() < 0.6 or variant == 'symlink'
+    text, bindings, forced = gen_script(rnd, lay, with_own, twins=(variant == 'twins'))
     files = dict(lay.files)
-    files[script_rel] = text
-    case = dict(kind='layout', files=files, script=script_rel, module=None, with_own=with_own,
+    files[script_real] = text
+    script_run, spellings = script_real, None
+    if variant == 'symlink':
+        symlinks = {'link': 'proj', 'proj/alias_run.py': script_real}
+        names = [script_real, 'link/' + script_real[len(prefix):], 'proj/alias_run.py', 'link/alias_run.py']
+        script_run = rnd.choice(names)
+        # the selection names the same file through a different chain of links
+        spellings = [n for n in names if n != script_run]
+        spellings += ['./' + n for n in spellings[:2]]
+    case = dict(kind='layout', files=files, script=script_run, script_real=script_real, module=None,
+                with_own=with_own, symlinks=symlinks, variant=variant,
                 bindings=[[b.real, b.local, b.kind] for b in bindings],
                 mods={d: dict(path=i['path'], is_pkg=i['is_pkg'], funcs=i['funcs'],
                               classes={c: [list(m) for m in ms] for c, ms in i['classes'].items()})
@@ -437,17 +515,28 @@ def gen_layout_case(rnd, e2e, wrapped=True, imports_prob=0.15):
                 imports=rnd.random() < imports_prob, e2e=e2e, prefix=prefix)
     case['_lay'] = lay
     case['_bindings'] = bindings
+    case['_forced'] = forced
+    case['_spellings'] = spellings
     return case
 
 
 def finish_layout_case(rnd, case, base_abs):
-    """selections need the absolute directory the driver will use; it is not known to the
-    generator, so absolute spellings use a placeholder the driver's cwd replaces"""
+    """selections need the absolute directory the driver will use"""
     lay, bindings = case.pop('_lay'), case.pop('_bindings')
-    specs, cli = gen_selection(rnd, lay, bindings, case['script'], base_abs, case['prefix'])
+    forced, spellings = case.pop('_forced', []), case.pop('_spellings', None)
+    if spellings:
+        spellings = spellings + [os.path.join(base_abs, spellings[0])]
+    specs, cli = gen_selection(rnd, lay, bindings, case['script_real'], base_abs, case['prefix'], forced=forced,
+                               symlinks={k: v for k, v in case['symlinks'].items() if not k.endswith('.py')},
+                               script_spellings=spellings)
+    if case.get('variant') == 'symlink' and spellings and not any(
+            resolve_rel(os.path.relpath(x, base_abs) if os.path.isabs(x) else x, case['symlinks'])
+            == os.path.normpath(case['script_real']) for x in specs):
+        specs.append(rnd.choice(spellings))      # the point of the variant: the script IS selected
+        cli = ['-p', ','.join(specs)] if rnd.random() < 0.5 else [a for x in specs for a in ('-p', x)]
     case['prof_mod'] = specs
     case['cli'] = (cli + (['--prof-imports'] if case['imports'] else [])) if case['e2e'] else None
-    S, full, by_descent = harness_selection(lay, specs, case['script'], base_abs)
+    S, full, by_descent = harness_selection(lay, specs, case['script_real'], base_abs, case['symlinks'])
     case['S_h'], case['full_h'], case['S_subpkgs'] = S, full, by_descent
     return case
 
